@@ -58,6 +58,7 @@ func genC06(r *hysim.Rand, tier string) *hysim.Script {
 	sc.Cfg["win_small"] = int64(r.Pick(0, 0, 1))
 	sc.Cfg["slow_tgt_us"] = r.Pick64(0, 0, 300, 20000) // slow readers let the relay's buffers fill
 	sc.Cfg["slow_cli_us"] = r.Pick64(0, 0, 300, 20000)
+	sc.Cfg["early_deadline"] = int64(r.Pick(0, 0, 1)) // first Read under a deadline that expires before any reply can arrive, then retried
 	netCfg(r, sc, 60)
 	wYieldCfg(r, sc, 2000000)
 	nconn := r.Range(1, 4)
@@ -406,6 +407,29 @@ func (cw *c06World) runClientConn(cl client.Client, c *c06Conn) {
 	buf := make([]byte, 8192)
 	first := true
 	slow := time.Duration(clamp(x.Script.Get("slow_cli_us", 0), 0, 1000000)) * time.Microsecond
+	consume := func(b []byte) {
+		for j := range b {
+			if b[j] != c06Byte(c.k, 1, c.cRecv+int64(j)) {
+				x.Violate("stream-corrupt", "k%d: client received byte %d = %#x, the target sent %#x (not a prefix of the target's stream)", c.k, c.cRecv+int64(j), b[j], c06Byte(c.k, 1, c.cRecv+int64(j)))
+				break
+			}
+		}
+		c.cRecv += int64(len(b))
+		if c.cRecv > c.tSize {
+			x.Violate("stream-injected", "k%d: client received %d bytes, the target sent only %d", c.k, c.cRecv, c.tSize)
+		}
+	}
+	if x.Script.Get("early_deadline", 0) == 1 && x.Script.Get("fastopen", 0) == 1 {
+		// an application that polls: with fast open the first Read has to fetch the server's
+		// response, which is one network round trip away; it times out after 20us and is retried
+		_ = conn.SetReadDeadline(time.Now().Add(20 * time.Microsecond))
+		n, err := conn.Read(buf[:1024])
+		_ = conn.SetReadDeadline(time.Time{})
+		consume(buf[:n])
+		if err != nil && isTimeout(err) {
+			x.Probe("first-read-timed-out-then-retried")
+		}
+	}
 	for {
 		if slow > 0 {
 			time.Sleep(slow)
